@@ -930,6 +930,36 @@ theorem slotInv_stepSet {cfg : Cfg} {s : Slot} (hg : SlotGood cfg s) (st : St) (
     intro x hx
     exact ((mem_eraseKey _ _ hs x).mp hx).2
 
+theorem slotInv_stepDel {s : Slot} (st : St) (k : String) (h : SlotInv s st) : SlotInv s (stepDel st k) := by
+  obtain ⟨hs, hp⟩ := h
+  simp only [stepDel]
+  cases hf : findKey k st.store with
+  | none => exact ⟨hs, hp⟩
+  | some o =>
+    simp only []
+    split
+    · exact slotInv_init s
+    · exact ⟨keysNodup_eraseKey _ _ hs, hp.erase hs k⟩
+
+theorem slotInv_stepBuild {cfg : Cfg} {s : Slot} (hg : SlotGood cfg s) (st : St) (q : Query)
+    (h : SlotInv s st) : SlotInv s (stepBuild cfg st q) := by
+  obtain ⟨hs, hp⟩ := h
+  simp only [stepBuild]
+  split
+  · exact ⟨hs, hp⟩
+  · refine ⟨hs, ?_⟩
+    simp only [setPair]
+    by_cases he : s = Hv.Beacon.phys cfg q.slot
+    · have hq : q.slot = s := hg.exclusive q.slot he.symm
+      rw [if_pos he, ← he, hq]
+      exact hp.build hg hs
+    · rw [if_neg he]; exact hp
+
+theorem slotInv_foldDel {s : Slot} (ks : List String) : ∀ (st : St), SlotInv s st → SlotInv s (ks.foldl stepDel st) := by
+  induction ks with
+  | nil => intro st h; exact h
+  | cons k rest ih => intro st h; exact ih _ (slotInv_stepDel st k h)
+
 theorem slotInv_step {cfg : Cfg} {s : Slot} (hg : SlotGood cfg s) (st : St) (op : Op)
     (h : SlotInv s st) : SlotInv s (step cfg st op) := by
   cases op with
@@ -951,28 +981,9 @@ theorem slotInv_step {cfg : Cfg} {s : Slot} (hg : SlotGood cfg s) (st : St) (op 
     · simp only [step, stepReload, KeysNodup, List.map_map]
       exact hs
     · intro hi; simp [step, stepReload] at hi
-  | del k =>
-    obtain ⟨hs, hp⟩ := h
-    simp only [step, stepDel]
-    cases hf : findKey k st.store with
-    | none => exact ⟨hs, hp⟩
-    | some o =>
-      simp only []
-      split
-      · exact slotInv_init s
-      · exact ⟨keysNodup_eraseKey _ _ hs, hp.erase hs k⟩
-  | read q =>
-    obtain ⟨hs, hp⟩ := h
-    simp only [step, stepBuild]
-    split
-    · exact ⟨hs, hp⟩
-    · refine ⟨hs, ?_⟩
-      simp only [setPair]
-      by_cases he : s = Hv.Beacon.phys cfg q.slot
-      · have hq : q.slot = s := hg.exclusive q.slot he.symm
-        rw [if_pos he, ← he, hq]
-        exact hp.build hg hs
-      · rw [if_neg he]; exact hp
+  | shiftExpired => exact slotInv_foldDel _ _ (slotInv_stepBuild hg st _ h)
+  | del k => exact slotInv_stepDel st k h
+  | read q => exact slotInv_stepBuild hg st q h
 
 theorem slotInv_run {cfg : Cfg} {s : Slot} (hg : SlotGood cfg s) (h : List Op) : SlotInv s (run cfg h) := by
   unfold run
